@@ -45,84 +45,98 @@ mod io {
 }
 
 pub trait AsyncReadExt {
-    async fn read_buf<B: BufMut>(&mut self, buf: &mut B) -> io::Result<usize>;
+    fn read_buf<'a, B: BufMut>(&'a mut self, buf: &'a mut B) -> ReadBuf<'a, B>;
 }
 
 pub trait AsyncWriteExt {
-    async fn write_all(&mut self, src: &[u8]) -> io::Result<()>;
+    fn write_all<'a>(&'a mut self, src: &'a [u8]) -> WriteAll<'a>;
 }
 
-/// A read that has nothing to deliver yet.
-struct Never;
-impl std::future::Future for Never {
-    type Output = ();
-    fn poll(
-        self: std::pin::Pin<&mut Self>,
-        _cx: &mut std::task::Context<'_>,
-    ) -> std::task::Poll<()> {
-        std::task::Poll::Pending
-    }
+// The futures are hand-written state-less structs rather than `async fn`s: every extra level
+// of compiler-generated coroutine nesting multiplies CBMC's time and memory by about ten.
+
+pub struct ReadBuf<'a, B: BufMut> {
+    stream: &'a mut TcpStream,
+    buf: &'a mut B,
+}
+
+pub struct WriteAll<'a> {
+    stream: &'a mut TcpStream,
+    src: &'a [u8],
 }
 
 impl AsyncReadExt for TcpStream {
-    async fn read_buf<B: BufMut>(&mut self, buf: &mut B) -> io::Result<usize> {
-        loop {
-            {
-                let mut st = self.state().borrow_mut();
-                if st.read_error {
-                    return Err(io::Error::from(io::ErrorKind::ConnectionReset));
-                }
-                let avail = st.limit - st.pos;
-                if avail > 0 {
-                    let start = st.pos;
-                    if st.deliver_all {
-                        let limit = st.limit;
-                        buf.put_slice(&st.input[start..limit]);
-                        st.pos = limit;
-                        st.reads += 1;
-                        return Ok(avail);
-                    }
-                    let room = buf.remaining_mut();
-                    let max = if avail < room { avail } else { room };
-                    if max == 0 {
-                        return Ok(0);
-                    }
-                    let n = match st.chunks.as_mut() {
-                        Some(chunks) if !chunks.is_empty() => {
-                            let c = chunks.remove(0);
-                            if c == 0 {
-                                1
-                            } else if c > max {
-                                max
-                            } else {
-                                c
-                            }
-                        }
-                        Some(_) => max,
-                        None => nondet::range(1, max),
-                    };
-                    buf.put_slice(&st.input[start..start + n]);
-                    st.pos = start + n;
-                    st.reads += 1;
-                    return Ok(n);
-                }
-                if st.eof {
-                    return Ok(0);
-                }
-            }
-            Never.await;
-        }
+    fn read_buf<'a, B: BufMut>(&'a mut self, buf: &'a mut B) -> ReadBuf<'a, B> {
+        ReadBuf { stream: self, buf }
     }
 }
 
 impl AsyncWriteExt for TcpStream {
-    async fn write_all(&mut self, src: &[u8]) -> io::Result<()> {
-        let mut st = self.state().borrow_mut();
-        if st.write_error {
-            return Err(io::Error::from(io::ErrorKind::BrokenPipe));
+    fn write_all<'a>(&'a mut self, src: &'a [u8]) -> WriteAll<'a> {
+        WriteAll { stream: self, src }
+    }
+}
+
+impl<'a, B: BufMut> std::future::Future for ReadBuf<'a, B> {
+    type Output = io::Result<usize>;
+    fn poll(self: std::pin::Pin<&mut Self>, _cx: &mut std::task::Context<'_>) -> std::task::Poll<Self::Output> {
+        use std::task::Poll;
+        let this = unsafe { self.get_unchecked_mut() };
+        let mut st = this.stream.state().borrow_mut();
+        if st.read_error {
+            return Poll::Ready(Err(io::Error::from(io::ErrorKind::ConnectionReset)));
         }
-        st.sink.extend_from_slice(src);
+        let avail = st.limit - st.pos;
+        if avail > 0 {
+            let start = st.pos;
+            if st.deliver_all {
+                let limit = st.limit;
+                this.buf.put_slice(&st.input[start..limit]);
+                st.pos = limit;
+                st.reads += 1;
+                return Poll::Ready(Ok(avail));
+            }
+            let room = this.buf.remaining_mut();
+            let max = if avail < room { avail } else { room };
+            if max == 0 {
+                return Poll::Ready(Ok(0));
+            }
+            let n = match st.chunks.as_mut() {
+                Some(chunks) if !chunks.is_empty() => {
+                    let c = chunks.remove(0);
+                    if c == 0 {
+                        1
+                    } else if c > max {
+                        max
+                    } else {
+                        c
+                    }
+                }
+                Some(_) => max,
+                None => nondet::range(1, max),
+            };
+            this.buf.put_slice(&st.input[start..start + n]);
+            st.pos = start + n;
+            st.reads += 1;
+            return Poll::Ready(Ok(n));
+        }
+        if st.eof {
+            return Poll::Ready(Ok(0));
+        }
+        Poll::Pending
+    }
+}
+
+impl<'a> std::future::Future for WriteAll<'a> {
+    type Output = io::Result<()>;
+    fn poll(self: std::pin::Pin<&mut Self>, _cx: &mut std::task::Context<'_>) -> std::task::Poll<Self::Output> {
+        use std::task::Poll;
+        let mut st = self.stream.state().borrow_mut();
+        if st.write_error {
+            return Poll::Ready(Err(io::Error::from(io::ErrorKind::BrokenPipe)));
+        }
+        st.sink.extend_from_slice(self.src);
         st.writes += 1;
-        Ok(())
+        Poll::Ready(Ok(()))
     }
 }
